@@ -384,6 +384,7 @@ func Fact(t Src, d Domain, label string) *facts.Fact {
 	for i := range f.RO {
 		f.RO[i] = gi(reflect.Int64, "RO")
 	}
+	f.SetWrapped()
 	f.ROM = map[string]int64{}
 	for _, k := range MapKeys {
 		f.ROM[k] = gi(reflect.Int64, "ROM")
